@@ -221,6 +221,7 @@ struct FnDirective {
 }
 
 struct Hint {
+    arm: bool,
     after: bool,
     needle: String,
     nth: usize,
@@ -383,10 +384,14 @@ fn main() {
                     s.attrs.clear();
                     for fl in s.fields.iter_mut() {
                         fl.attrs.clear();
+                        // R25: field visibility widened (specifications must be able to name fields; no run-time meaning)
+                        fl.vis = parse_quote!(pub);
                     }
+                    s.vis = parse_quote!(pub);
                     rw.fix_generics(&mut s.generics);
                 }
                 Item::Enum(s) => {
+                    s.vis = parse_quote!(pub);
                     derives_clone = has_derive(&s.attrs, "Clone");
                     s.attrs.clear();
                     for v in s.variants.iter_mut() {
@@ -505,9 +510,13 @@ fn main() {
                     mode = Mode::Loop(n);
                 } else if let Some(r) = lt.strip_prefix("//@hint ") {
                     let r = r.trim();
+                    let mut arm = false;
                     let (after, r2) = if let Some(x) = r.strip_prefix("after ") {
                         (true, x)
                     } else if let Some(x) = r.strip_prefix("before ") {
+                        (false, x)
+                    } else if let Some(x) = r.strip_prefix("arm ") {
+                        arm = true;
                         (false, x)
                     } else {
                         die("bad //@hint")
@@ -516,7 +525,7 @@ fn main() {
                     let q2 = r2.rfind('"').unwrap();
                     let needle = r2[q1 + 1..q2].to_string();
                     let nth = r2[q2 + 1..].trim().strip_prefix('#').map(|s| s.parse().unwrap()).unwrap_or(1);
-                    d.hints.push(Hint { after, needle, nth, lines: vec![] });
+                    d.hints.push(Hint { arm, after, needle, nth, lines: vec![] });
                     mode = Mode::Hint;
                 } else if lt.starts_with("//@") {
                     die(&format!("unexpected directive inside //@fn: {lt}"));
@@ -816,7 +825,11 @@ fn emit_fn(
             if l.contains("/*vxhint*/") {
                 continue;
             }
-            if norm(l).contains(&norm(&h.needle)) {
+            let hit = match h.needle.strip_prefix('=') {
+                Some(exact) => norm(l) == norm(exact),
+                None => norm(l).contains(&norm(&h.needle)),
+            };
+            if hit {
                 cnt += 1;
                 if cnt == h.nth {
                     at = Some(k);
@@ -825,6 +838,28 @@ fn emit_fn(
             }
         }
         let at = at.unwrap_or_else(|| die(&format!("LOST ANCHOR: hint anchor \"{}\" #{} not found in {}::{}", h.needle, h.nth, d.selector, d.name)));
+        if h.arm {
+            // `PAT => EXPR,` on one line becomes `PAT => { <hint> EXPR }` (a match arm's value in a block: no semantic change)
+            let l = body[at].clone();
+            let p = l.find(" => ").unwrap_or_else(|| die("hint arm: not a match arm"));
+            let rest = l[p + 4..].trim_end();
+            if rest.ends_with('{') {
+                // block arm: insert right after the opening brace
+                for (j, hl) in h.lines.iter().enumerate() {
+                    body.insert(at + 1 + j, format!("{hl} /*vxhint*/"));
+                }
+            } else {
+                let expr = rest.trim_end_matches(',');
+                body[at] = format!("{} => {{ /*vxhint*/", &l[..p]);
+                let mut ins: Vec<String> = h.lines.iter().map(|x| format!("{x} /*vxhint*/")).collect();
+                ins.push(format!("{expr} /*vxarm*/"));
+                ins.push("} /*vxhint*/".to_string());
+                for (j, hl) in ins.into_iter().enumerate() {
+                    body.insert(at + 1 + j, hl);
+                }
+            }
+            continue;
+        }
         let pos = if h.after {
             // end of the statement starting at `at`
             let mut depth: i64 = 0;
